@@ -254,6 +254,25 @@ func c02Special() []refTree {
 			{Position: "components.schemas.Site", Kind: "schema", Form: "fragment", Shape: "mutual-cycle-across-files-" + kw, Ref: "ext/e.json#/components/schemas/B", Marker: "MARKB" + kw},
 		})
 	}
+	// a pointer token that contains a percent sign after the one decoding a URI fragment gets (written %2520 for "%20"):
+	// the key "a%20b" is meant, not the key "a b"
+	{
+		rootP := refRootSkeleton()
+		dig(rootP, "components", "schemas")["Site"] = gen.S{"$ref": "other.json#/x-defs/a%2520b"}
+		dig(rootP, "components", "schemas", "Holder", "properties")["p"] = gen.S{"$ref": "other.json#/x-defs/a%20b"}
+		other := gen.S{"openapi": "3.0.3", "info": gen.S{"title": "o", "version": "1"}, "paths": gen.S{},
+			"x-defs": gen.S{"a%20b": gen.S{"type": "string", "title": "MARKPERCENT"}, "a b": gen.S{"type": "integer", "title": "MARKBLANK"}}}
+		mk(rootP, map[string]gen.S{"w/other.json": other}, []refPlan{
+			{Position: "components.schemas.Site", Kind: "schema", Form: "fragment", Shape: "percent-sign-in-a-pointer-token", Ref: "other.json#/x-defs/a%2520b", Marker: "MARKPERCENT"},
+			{Position: "schema.properties.p", Kind: "schema", Form: "fragment", Shape: "percent-sign-in-a-pointer-token", Ref: "other.json#/x-defs/a%20b", Marker: "MARKBLANK"}})
+		rootQ := refRootSkeleton()
+		rootQ["x-defs"] = gen.S{"a%20b": gen.S{"type": "string", "title": "MARKPERCENT"}, "a b": gen.S{"type": "integer", "title": "MARKBLANK"}}
+		dig(rootQ, "components", "schemas")["Site"] = gen.S{"$ref": "#/x-defs/a%2520b"}
+		dig(rootQ, "components", "schemas", "Holder", "properties")["p"] = gen.S{"$ref": "#/x-defs/a%20b"}
+		mk(rootQ, nil, []refPlan{
+			{Position: "components.schemas.Site", Kind: "schema", Form: "internal", Shape: "percent-sign-in-a-pointer-token", Ref: "#/x-defs/a%2520b", Marker: "MARKPERCENT"},
+			{Position: "schema.properties.p", Kind: "schema", Form: "internal", Shape: "percent-sign-in-a-pointer-token", Ref: "#/x-defs/a%20b", Marker: "MARKBLANK"}})
+	}
 	// a cycle that passes through a FILE holding nothing but a reference back to the object in progress
 	{
 		rootW := refRootSkeleton()
